@@ -778,7 +778,19 @@ func (x *executor) stepInner(line string) string {
 		if r == nil {
 			return "bad-op no-router"
 		}
-		return protect(func() string { r.Use(mwsOf(decNatList(t[2]))...); return "ok" })
+		return protect(func() string {
+			ms := mwsOf(decNatList(t[2]))
+			if atoi(t[1])%2 == 0 && len(ms) > 0 { // as for façades: a private slice with spare capacity, overwritten by its owner after the call
+				ms = append(make([]types.Middleware[*H], 0, len(ms)+2), ms...)
+				defer func() {
+					for i := range ms {
+						ms[i] = mwOf(99)
+					}
+				}()
+			}
+			r.Use(ms...)
+			return "ok"
+		})
 	case t[0] == "routes" && len(t) == 2:
 		r := x.routers[atoi(t[1])]
 		if r == nil {
@@ -821,6 +833,17 @@ func (x *executor) stepInner(line string) string {
 			return "bad-op"
 		}
 		ms := mwsOf(decNatList(t[6]))
+		scribble := fid%2 == 0 && len(ms) > 0
+		if scribble { // a private copy of the list: the caller overwrites ITS slice after the call (see below)
+			ms = append(make([]types.Middleware[*H], 0, len(ms)), ms...)
+		}
+		defer func() {
+			if scribble { // the caller re-uses its slice for something else: the façade keeps what it was given at creation
+				for i := range ms {
+					ms[i] = mwOf(99)
+				}
+			}
+		}()
 		parent := x.facades[atoi(t[4])]
 		if t[4] == "-" {
 			parent = nil
@@ -1126,6 +1149,9 @@ func (x *executor) stepInner(line string) string {
 			req := mkRequest(t[2], t[3], "example.com", t[4])
 			req.Body = io.NopCloser(strings.NewReader(decB(t[5])))
 			r := newRec()
+			if len(t[3])%2 == 1 { // a middleware in front of the helper chose a default Content-Type: the helper's own still goes out
+				r.Header().Set("Content-Type", "application/json; charset=utf-8")
+			}
 			mux.Trace(r, req, t[1] == "1")
 			return "trace " + fmtRec(r) + " text=" + encB(string(r.text))
 		})
